@@ -26,6 +26,7 @@ def content(coll, ids, meta):
     ks = coll.kmerspec
     ids = list(ids)
     kind = 'int' if all(isinstance(i, (int, np.integer)) for i in ids) else 'str'
+    ids = [i.decode() if isinstance(i, bytes) else i for i in ids]
     return dict(k=int(ks.k), prefix=blist(ks.prefix), dtype=c20.dts(coll.dtype),
                 ids=[str(int(i)) for i in ids] if kind == 'int' else [[ord(c) for c in str(i)] for i in ids], ids_kind=kind if ids else 'none',
                 meta=dict(id=cps(meta.id), name=cps(meta.name), version=cps(meta.version), id_attr=cps(meta.id_attr),
@@ -48,6 +49,9 @@ IDS = {
     'ascii': lambda n: [f'GCF_{i:06d}.1' for i in range(n)],
     'unicode': lambda n: [f'gén-{i}-ö✓' for i in range(n)],
     'with-empty': lambda n: [''] + [f'x{i}' for i in range(1, n)],
+    'numpy-U': lambda n: np.array([f'u{i}é' for i in range(n)]),
+    'numpy-int32': lambda n: np.arange(100, 100 + n, dtype='i4'),
+    'tuple': lambda n: tuple(f't{i}' for i in range(n)),
 }
 
 
@@ -84,7 +88,7 @@ class RoundTrip(core.Family):
         reps = 1 if ctx.tier == 'quick' else 6
         self.rule = ('collections with k in {1,4,5,8,9,16,17,32} (all four index widths; values 0, 4^k-1 and random), prefix length 1..8, '
                      '1..6 signatures incl. all-empty and alternating-empty, containers array / list / annotated wrapper of each, ids '
-                     '{default, ints, 2^62+i, ASCII, Unicode, with empty string}, metadata {default, all None, empty strings, Unicode with '
+                     '{default, ints, 2^62+i, ASCII, Unicode, with empty string, NumPy U / int32 arrays, tuple}, metadata {default, all None, empty strings, Unicode with '
                      'nested extra, ASCII}, compression {none, gzip 0/1/9, lzf}, widened dtype; dump_signatures -> load_signatures; plus '
                      'indexing of the loaded file with ints, slices, index lists and masks; non-trivial = >= 2 signatures, not all empty')
         ks = [1, 4, 5, 8, 9, 16, 17, 32]
